@@ -3099,7 +3099,9 @@ def update_working_tree(
                             f"Please commit your changes or stash them before you switch branches."
                         )
 
-    # Apply the changes
+    # Apply the changes. All removals go first, so that a directory whose
+    # tracked content goes away can be replaced by a file of the same name
+    # (the additions sort before the removals of the paths below them).
     for change in changes:
         if change.type in (CHANGE_DELETE, CHANGE_RENAME):
             # Remove file/directory
@@ -3124,6 +3126,7 @@ def update_working_tree(
 
             _transition_to_absent(repo, path, full_path, delete_stat, index)
 
+    for change in changes:
         if change.type in (
             CHANGE_ADD,
             CHANGE_MODIFY,
